@@ -164,7 +164,10 @@ class IsUniqueCheck(AbstractCheck):
         # Extract field names to check from rule.
         toky = generated_tokens(rule)
         after_comma = True
-        next_token = next(toky)
+        try:
+            next_token = next(toky)
+        except (tokenize.TokenError, SyntaxError) as error:
+            raise errors.InterfaceError("cannot split rule %r into tokens: %s" % (rule, error), self.location_of_rule)
         unique_field_names = set()
         while not _tools.is_eof_token(next_token):
             token_type = next_token[0]
@@ -226,7 +229,10 @@ class DistinctCountCheck(AbstractCheck):
         super().__init__(description, rule, available_field_names, location)
 
         tokens = generated_tokens(rule)
-        first_token = next(tokens)
+        try:
+            first_token = next(tokens)
+        except (tokenize.TokenError, SyntaxError) as error:
+            raise errors.InterfaceError("cannot split rule %r into tokens: %s" % (rule, error), self.location_of_rule)
 
         # Obtain and validate field to count.
         if first_token[0] != tokenize.NAME:
